@@ -50,6 +50,58 @@ func mentionsC(n ast.Node) bool {
 	return found
 }
 
+// droppedNames: functions/methods of package rocksdb whose signature mentions C
+// (collected in a first pass over all files).
+var droppedNames = map[string]bool{}
+
+func mentionsAny(n ast.Node, names map[string]bool) bool {
+	found := false
+	ast.Inspect(n, func(x ast.Node) bool {
+		switch id := x.(type) {
+		case *ast.Ident:
+			if names[id.Name] {
+				found = true
+			}
+		case *ast.SelectorExpr:
+			if names[id.Sel.Name] || names["."+id.Sel.Name] {
+				found = true
+			}
+		}
+		return !found
+	})
+	return found
+}
+
+func collectDropped(fset *token.FileSet, path string) {
+	f, err := parser.ParseFile(fset, path, nil, 0)
+	if err != nil {
+		return
+	}
+	for _, d := range f.Decls {
+		if fd, ok := d.(*ast.FuncDecl); ok {
+			if mentionsC(fd.Type) || (fd.Recv != nil && mentionsC(fd.Recv)) {
+				droppedNames[fd.Name.Name] = true
+			}
+		}
+		// struct fields of C types are dropped too: code that touches them cannot be kept
+		if gd, ok := d.(*ast.GenDecl); ok {
+			for _, s := range gd.Specs {
+				if ts, ok := s.(*ast.TypeSpec); ok {
+					if st, ok := ts.Type.(*ast.StructType); ok {
+						for _, fld := range st.Fields.List {
+							if mentionsC(fld.Type) {
+								for _, n := range fld.Names {
+									droppedNames["."+n.Name] = true
+								}
+							}
+						}
+					}
+				}
+			}
+		}
+	}
+}
+
 // stubFile turns one real rocksdb source file into its skeleton. What is
 // dropped is reported in `dropped`.
 func stubFile(fset *token.FileSet, path string, keepCgo bool, dropped *[]string) ([]byte, error) {
@@ -67,6 +119,12 @@ func stubFile(fset *token.FileSet, path string, keepCgo bool, dropped *[]string)
 			d.Doc = nil
 			if mentionsC(d.Type) || (d.Recv != nil && mentionsC(d.Recv)) {
 				*dropped = append(*dropped, filepath.Base(path)+": func "+d.Name.Name+" (signature mentions C)")
+				continue
+			}
+			if d.Body != nil && !mentionsC(d.Body) && !mentionsAny(d.Body, droppedNames) {
+				// pure Go body that needs nothing that was dropped: kept as it is
+				// (package-level initialisers call some of these)
+				decls = append(decls, d)
 				continue
 			}
 			if d.Body != nil {
@@ -200,6 +258,12 @@ func Skeleton() (map[string][]byte, []string, error) {
 		names = append(names, e.Name())
 	}
 	sort.Strings(names)
+	droppedNames = map[string]bool{}
+	for _, n := range names {
+		if strings.HasSuffix(n, ".go") && !strings.HasSuffix(n, "_test.go") {
+			collectDropped(fset, filepath.Join(dir, n))
+		}
+	}
 	for _, n := range names {
 		p := filepath.Join(dir, n)
 		switch {
